@@ -99,6 +99,7 @@ def build(tier, seed):
     plan.add(Obligation("C05/qscript:QuantumScript.hash/post:fingerprint-injective", "post", lambda: fingerprint_injective(),
                         func=(QS, "QuantumScript.hash"), replay=lambda w: fingerprint_replay(w),
                         sample="equal fingerprints => equal (op hashes, measurement hashes, trainable params, shots)"))
+    measurement_hash_obligations(plan, tier)
     return plan
 
 
@@ -277,5 +278,97 @@ def fingerprint_replay(w):
         return dict(confirmed=bool(same_hash and differ), hash_equal=bool(same_hash), tapes_differ=bool(differ),
                     tape_A=dict(trainable=list(ta.trainable_params), shots=str(ta.shots)),
                     tape_B=dict(trainable=list(tb.trainable_params), shots=str(tb.shots)))
+    except Exception as ex:  # pylint: disable=broad-except
+        return dict(confirmed=None, note=f"replay construction failed: {type(ex).__name__}: {ex}")
+
+
+# ---- (d) measurement fingerprints separate the measurement's defining data --------------------------------------------------------
+def measurement_hash_obligations(plan, tier):
+    """E1, relational: the real `__hash__` body is executed symbolically on TWO instances with `hash` modelled as the
+    identity on structured values (python's hash assumed collision-free); obligation: equal fingerprints imply equal
+    defining data, for label sequences of symbolic length."""
+    import z3 as _z3
+    from vf.pyvc.engine import World, T, Int, Bool, RecT, SeqT, Label, Ctx, fresh, Rec, ReturnExc, Unsupp, RaiseExc, SeqV
+    from vf.pyvc.interp import Interp
+    WIRES = "pennylane/wires.py"
+    wires_fields = (WIRES, {"_labels": SeqT(Label, tuple=True), "_hash": T("const", None)})
+    specs = [
+        # (file, class, fields, defining data extractor)
+        ("pennylane/measurements/mutual_info.py", "MutualInfoMP",
+         {"raw_wires": T("list", RecT("Wires"), 2), "log_base": Int},
+         lambda s: (s.raw_wires.items[0]._labels, s.raw_wires.items[1]._labels, s.log_base),
+         # the base constructor sets self.wires = all wires of the two subsystems (disjoint by validation): their concatenation
+         lambda o, w: o.f.__setitem__("wires", Rec(w.classes["Wires"], {
+             "_labels": SeqV(_z3.Concat(o.raw_wires.items[0]._labels.term, o.raw_wires.items[1]._labels.term), Label, True), "_hash": None}))),
+        ("pennylane/measurements/vn_entropy.py", "VnEntropyMP", {"wires": RecT("Wires"), "log_base": Int},
+         lambda s: (s.wires._labels, s.log_base)),
+        ("pennylane/measurements/classical_shadow.py", "ClassicalShadowMP", {"wires": RecT("Wires"), "seed": Int},
+         lambda s: (s.wires._labels, s.seed)),
+        ("pennylane/measurements/counts.py", "CountsMP",
+         {"wires": RecT("Wires"), "obs": Int, "_eigvals": T("const", None), "all_outcomes": Bool},
+         lambda s: (s.wires._labels, s.obs, s.all_outcomes)),
+        ("pennylane/core/measurements.py", "MeasurementProcess",
+         {"wires": RecT("Wires"), "obs": Int, "mv": T("const", None), "_eigvals": T("const", None)},
+         lambda s: (s.wires._labels, s.obs)),
+    ]
+    specs = [sp if len(sp) == 5 else sp + (None,) for sp in specs]
+    for file, cls, fields, data, derive in specs:
+        def fn(file=file, cls=cls, fields=fields, data=data, derive=derive):
+            try:
+                w = World(file, classes={cls: fields, "Wires": wires_fields},
+                          extra_builtins={"hash": lambda it, a, k: a[0], "str": lambda it, a, k: ("str", a[0])})
+                ctx = Ctx(w, [], 20000)
+                it = Interp(ctx, None)
+                vals = []
+                for tag in ("A", "B"):
+                    obj = fresh(ctx, RecT(cls), tag)
+                    if derive is not None:
+                        derive(obj, w)
+                    vals.append((obj, it.call_method(obj, "__hash__", [], {})))
+                (oa, fa), (ob, fb) = vals
+                same_fp = it.equal(fa, fb)
+                same_data = it.equal(data(oa), data(ob))
+                s = _z3.Solver()
+                s.set("timeout", 20000)
+                s.add(*ctx.pc)
+                s.add(same_fp if not isinstance(same_fp, bool) else _z3.BoolVal(same_fp))
+                s.add(_z3.Not(same_data) if not isinstance(same_data, bool) else _z3.BoolVal(not same_data))
+                r = s.check()
+            except (Unsupp, RaiseExc) as ex:
+                return Outcome(UNDECIDED, "pyvc", f"extractor refused: {type(ex).__name__}: {ex}")
+            if r == _z3.unsat:
+                return Outcome(DISCHARGED, "z3", "equal fingerprints imply equal defining data")
+            if r == _z3.sat:
+                from vf.pyvc.engine import concretize
+                m = s.model()
+                w_ = dict(A=concretize(w, oa, m), B=concretize(w, ob, m))
+                return Outcome(REFUTED, "z3", f"two different {cls} instances share a fingerprint", witness=w_,
+                               replay=mp_hash_replay(cls, w_))
+            return Outcome(UNDECIDED, "z3", "solver unknown")
+        plan.add(Obligation(f"C05/{file.split('/')[-1][:-3]}:{cls}.__hash__/post:fingerprint-separates-defining-data", "post", fn,
+                            func=(file, f"{cls}.__hash__"), timeout=120,
+                            sample="equal fingerprints => equal (wires..., parameters) of the measurement process"))
+        plan.fn_under_contract(file, f"{cls}.__hash__")
+
+
+def mp_hash_replay(cls, w):
+    """build the two real measurement processes of the witness and compare python hashes"""
+    try:
+        def labels(d):
+            return [int(str(x)[1:]) if str(x).startswith("L") else x for x in d["_labels"]]
+
+        def mk(d):
+            if cls == "MutualInfoMP":
+                return qp.measurements.MutualInfoMP(wires=[qp.wires.Wires(labels(d["raw_wires"][0])), qp.wires.Wires(labels(d["raw_wires"][1]))],
+                                                    log_base=d["log_base"])
+            if cls == "VnEntropyMP":
+                return qp.measurements.VnEntropyMP(wires=qp.wires.Wires(labels(d["wires"])), log_base=d["log_base"])
+            if cls == "ClassicalShadowMP":
+                return qp.measurements.ClassicalShadowMP(wires=qp.wires.Wires(labels(d["wires"])), seed=d["seed"])
+            return None
+        a, b = mk(w["A"]), mk(w["B"])
+        if a is None:
+            return dict(confirmed=None, note="no native constructor mapping for this class")
+        return dict(confirmed=bool(hash(a) == hash(b) and repr(a) != repr(b)), hash_equal=hash(a) == hash(b), A=repr(a), B=repr(b))
     except Exception as ex:  # pylint: disable=broad-except
         return dict(confirmed=None, note=f"replay construction failed: {type(ex).__name__}: {ex}")
